@@ -17,6 +17,7 @@ import (
 	"net/http"
 	"net/http/httptest"
 	"os"
+	"runtime"
 	"strings"
 	"sync"
 	"sync/atomic"
@@ -76,6 +77,19 @@ func run(workers, ops int, seed uint64) *Result {
 	var kinds [8]atomic.Int64
 	// shared state, mounted once before serving
 	mux := goahttp.NewMuxer()
+	// a pre-routing middleware (as goa's Debug/Trace middlewares are mounted) asks the
+	// muxer for the variables and the pattern of a request that has not been routed yet
+	mux.Use(func(next http.Handler) http.Handler {
+		return http.HandlerFunc(func(w http.ResponseWriter, r *http.Request) {
+			vars := mux.Vars(r)
+			pat := mux.ResolvePattern(r)
+			runtime.Gosched()
+			b, _ := json.Marshal(vars)
+			w.Header().Set("X-Pre-Vars", string(b))
+			w.Header().Set("X-Pre-Pattern", pat)
+			next.ServeHTTP(w, r)
+		})
+	})
 	patterns := []string{"/a/{x}", "/b/{x}/c/{y}", "/files/{*path}", "/lit"}
 	for _, p := range patterns {
 		p := p
@@ -135,6 +149,19 @@ func run(workers, ops int, seed uint64) *Result {
 					for k, v := range want {
 						if got.Vars[k] != v {
 							viol("mux:isolation:vars", "GET %s: var %s=%q want %q", url, k, got.Vars[k], v)
+						}
+					}
+					pre := map[string]string{}
+					_ = json.Unmarshal([]byte(rec.Header().Get("X-Pre-Vars")), &pre)
+					if pp := rec.Header().Get("X-Pre-Pattern"); pp != wantPat {
+						viol("mux:isolation:pre-routing-pattern", "GET %s: a Use'd middleware resolved pattern %q want %q", url, pp, wantPat)
+					}
+					if len(pre) != len(want) {
+						viol("mux:isolation:pre-routing-vars", "GET %s: a Use'd middleware saw vars %v want %v", url, pre, want)
+					}
+					for k, v := range want {
+						if pre[k] != v {
+							viol("mux:isolation:pre-routing-vars", "GET %s: a Use'd middleware saw var %s=%q want %q", url, k, pre[k], v)
 						}
 					}
 				case 1: // response encoder negotiation
